@@ -58,10 +58,30 @@ Inductive cop :=
     (* node i obtains version number x of the log from node j, which knows it: j hands out the records
        of the version that are live in its database, plus possibly some superseded ones
        (seqs in extra: a broadcast carries the original records).  Re-delivery of a version
-       i already knows is ignored. *).
+       i already knows is ignored. *)
+
+| PullMix (i : nat) (x : nat) (srv : list nat)
+    (* node i assembles version x from chunks obtained from SEVERAL nodes (C03's buffer accepts
+       chunks from any supplier): the record at position p of the version lies in a chunk served
+       by node (nth p srv), which knows the version; it arrives iff it is live there *).
 
 Definition served (srv : node) (x : ver) (extra : list Z) : list rec :=
   filter (fun r => live (n_db srv) r || existsb (Z.eqb (r_seq r)) extra) (v_recs x).
+
+Fixpoint mix (nodes : list node) (x : nat) (rs : list rec) (srv : list nat) : option (list rec) :=
+  match rs, srv with
+  | [], _ => Some []
+  | r :: rs', j :: srv' =>
+    match nth_error nodes j with
+    | Some m => if knows m x
+                then match mix nodes x rs' srv' with
+                     | Some l => Some (if live (n_db m) r then r :: l else l)
+                     | None => None end
+                else None
+    | None => None
+    end
+  | _ :: _, [] => None
+  end.
 
 Definition cstep (s : cstate) (o : cop) : cstate :=
   match o with
@@ -80,6 +100,16 @@ Definition cstep (s : cstate) (o : cop) : cstate :=
       then mkC (c_log s) (set_nth i (absorb n (served m vx extra) x) (c_nodes s))
       else s
     | _, _, _ => s
+    end
+  | PullMix i x srv =>
+    match nth_error (c_nodes s) i, nth_error (c_log s) x with
+    | Some n, Some vx =>
+      if negb (knows n x)
+      then match mix (c_nodes s) x (v_recs vx) srv with
+           | Some l => mkC (c_log s) (set_nth i (absorb n l x) (c_nodes s))
+           | None => s end
+      else s
+    | _, _ => s
     end
   end.
 
